@@ -22,21 +22,27 @@ McInit == [bal   |-> [a \in McAcc |-> CASE a = "a1" -> 409000 [] a = "a2" -> 186
            eq    |-> [a \in McAcc |-> IF a \in {"a1", "a2"} THEN 100 ELSE 0],
            code  |-> [a \in McAcc |-> a \in {"KS", "KR", "KX", "KD", "KO"}],
            sup   |-> 200, frz |-> FALSE,
-           h |-> 3, T |-> 1000000, I |-> 1000, rwd |-> <<0, 0>>, rwt |-> <<0, 0>>]
-\* The term-boundary worlds: setup block 4 gives both genesis deputies a deposit (M1 300, M2 400 LEMO) and lets M1 and a4
-\* vote for a3; the setup chain continues with empty stable blocks up to the snapshot block (height T), which elects a3
-\* and M2 for term 1 (M1 is not re-elected); the scenario blocks are the interim blocks T+1 .. T+I, the reward block
-\* T+I+1 and the blocks after it.  Every scenario block is stabilised when it is committed.
+           h |-> 3, T |-> 1000000, I |-> 1000, rwd |-> <<0, 0>>, rwt |-> <<0, 0>>,
+           idx |-> [a \in McAcc |-> a \in {"a3", "M1", "M2"}], stab |-> FALSE]
+\* The term-boundary worlds: setup block 4 lets M1 and a4 vote for a3, gives both genesis deputies a deposit (M1 300,
+\* M2 400 LEMO) and registers a4 (300 LEMO); the setup chain continues with empty stable blocks up to the snapshot block
+\* (height T), which elects a3 and M2 for term 1 (M1 is not re-elected, a4 not elected); the scenario blocks are the
+\* interim blocks T+1 .. T+I, the reward block T+I+1 and the blocks after it.  McInitTerm: scenario blocks stay
+\* unconfirmed as in the mid-term world (refunds reach the candidates registered in the setup chain); McInitStab: every
+\* scenario block is stabilised when it is committed, as on a live chain (refunds reach later registrations too).
 McCtxTerm  == [McCtx EXCEPT !.deps = <<{"M1", "M2"}, {"a3", "M2"}>>,
-                            !.payees = << <<[a |-> "I", v |-> 0], [a |-> "I", v |-> 0]>>, <<[a |-> "a3", v |-> 12], [a |-> "I", v |-> 4]>> >>]
+                            !.payees = << <<[a |-> "I", v |-> 0], [a |-> "I", v |-> 0]>>, <<[a |-> "a3", v |-> 10], [a |-> "I", v |-> 4]>> >>]
 McInitT    == [McInit EXCEPT !.bal = [a \in McAcc |-> CASE a = "a1" -> 408796 [] a = "a2" -> 186000 [] a = "a3" -> 256524
-                                        [] a = "a4" -> 955664 [] a = "I" -> 517312 [] a = "P" -> 1000000
+                                        [] a = "a4" -> 546188 [] a = "I" -> 626788 [] a = "P" -> 1300000
                                         [] a = "M1" -> 765148 [] a = "M2" -> 254708 [] a = "F" -> 995655848 [] OTHER -> 0],
-                             !.votes = [a \in McAcc |-> CASE a = "a3" -> 12 [] a = "M1" -> 3 [] a = "M2" -> 4 [] OTHER -> 0],
+                             !.votes = [a \in McAcc |-> CASE a = "a3" -> 10 [] a = "M1" -> 3 [] a = "M2" -> 4 [] a = "a4" -> 3 [] OTHER -> 0],
                              !.vf = [a \in McAcc |-> IF a \in {"a1", "a4", "M1"} THEN "a3" ELSE NONE],
-                             !.dep = [a \in McAcc |-> CASE a = "a3" -> 300000 [] a = "M1" -> 300000 [] a = "M2" -> 400000 [] OTHER -> 0]]
+                             !.reg = [a \in McAcc |-> IF a \in {"a3", "a4", "M1", "M2"} THEN "yes" ELSE "no"],
+                             !.idx = [a \in McAcc |-> a \in {"a3", "a4", "M1", "M2"}],
+                             !.dep = [a \in McAcc |-> CASE a \in {"a3", "a4", "M1"} -> 300000 [] a = "M2" -> 400000 [] OTHER -> 0]]
 McInitTerm  == [McInitT EXCEPT !.h = 5, !.T = 5, !.I = 1]
 McInitTerm2 == [McInitT EXCEPT !.h = 6, !.T = 6, !.I = 2]
+McInitStab  == [McInitT EXCEPT !.h = 6, !.T = 6, !.I = 1, !.stab = TRUE]
 McGas == [xfer |-> 21000, vote |-> 35000, reg |-> 112000, topup |-> 112000, unreg |-> 112000, issue |-> 63000,
           repl |-> 70000, axfer |-> 39000, freeze |-> 43000, unfreeze |-> 43000, box |-> 40000, setrew |-> 24000]
 \* amount classes of the asset transactions (cfg files cannot hold negative numbers): negative, zero, one, all of
